@@ -1,7 +1,7 @@
 # Table of claimed checks; executed by mkmanifest.py.
 NOTES = ("Runtime monitoring only: every verdict is an oracle observing executions of the real code built from /repo's working tree. Exit 0 = held on what was observed, "
          "exit 1 + VIOLATION line = refuted with replay file, exit 2 + INCONCLUSIVE line = nothing can be said (never folded into the others). "
-         "Known findings: /verif/known_findings.json (2 open, both pinned by existing tests; the fix: commits are listed as fixed and suppress nothing). "
+         "Known findings: /verif/known_findings.json (3 open: two pinned by existing tests, one whose repair is not small and safe; the fix: commits are listed as fixed and suppress nothing). "
          "Validation of the monitors: 183 independent seeded changes in /verif/seeded (tools/runseeded.sh), every fix reversed (tools/regress.sh), behaviour-preserving refactors in "
          "/verif/neutral (tools/runneutral.sh), syntactic mutation screening (tools/mutscreen.py, mutscreen/SUMMARY.md). Thorough tier adds a coverage-based reach audit to the evidence.")
 HOOK_COMMITS = ["f9ac6f7", "155194a"]
@@ -80,7 +80,7 @@ add("C18", "exploration",
     "Send instants before the NTP era end, receive instants up to 64 s after it; 1 ns conversion slack.")
 add("C19", "exploration",
     "runtime monitor: differential against an independent video-layers-allocation00 encoder/decoder over all slot subsets; fresh-vs-used receiver twin; recover()-guarded decoder fuzz",
-    "Thorough executes all 69 900 slot subsets x resolution flag; quick all subsets for <=2 streams plus 100 000 sampled; encodings beyond 255 bytes; 30k/300k invalid values; 60k/600k fuzz streams.",
+    "Thorough executes all 69 900 slot subsets x resolution flag (one open known finding: bitrates of 2^56 kbps or more); quick all subsets for <=2 streams plus 100 000 sampled; encodings beyond 255 bytes; 30k/300k invalid values; 60k/600k fuzz streams.",
     "Reference encoder/decoder cross-checked on every case; empty allocation only panic-checked.")
 add("C20", "exploration",
     "runtime monitor: twin (mutate one side, watch the other's snapshot) + address-range overlap monitor over full slice capacity (payload, CSRC, extension list, extension values)",
